@@ -115,7 +115,7 @@ pub fn c17(tier: Tier, seed: u64) -> i32 {
     let acc = run_histories(
         seed,
         per_shard,
-        move |_r| HistCfg { ops: 110, pools: 3, spl_only: false, allow_transfer_fee: true, allow_adaptive: true, w_swap: 20, w_two_hop: 45, w_liq: 25, w_fees: 3, w_lifecycle: 2, w_clock: 3, w_setters: 2, ..Default::default() },
+        move |_r| HistCfg { ops: 110, pools: 3, spl_only: false, allow_transfer_fee: true, allow_adaptive: true, w_swap: 18, w_two_hop: 42, w_liq: 22, w_fees: 3, w_lifecycle: 2, w_clock: 3, w_setters: 2, w_reward: 10, ..Default::default() },
         || vec![Box::new(C17) as Box<dyn Monitor>],
     );
     rep.acc = acc;
